@@ -105,7 +105,7 @@ def other_entry(draw, rank: int, epoch: int, fractional: bool) -> Dict[str, Any]
 
 
 @st.composite
-def raw_rank(draw, rank: int, epoch: int, fractional: bool) -> Dict[str, Any]:
+def raw_rank(draw, rank: int, epoch: int, fractional: bool, every_entry_has_ts: bool = False) -> Dict[str, Any]:
     names_host = list(draw(st.permutations(HOST_NAMES)))[: pick(draw, [3, 6, 10])]
     names_dev = list(draw(st.permutations(DEV_NAMES)))[: pick(draw, [2, 4, 8])]
     first_ts = draw(number(epoch, 40, fractional))
@@ -116,7 +116,10 @@ def raw_rank(draw, rank: int, epoch: int, fractional: bool) -> Dict[str, Any]:
         if pick(draw, [True, True, False]):
             events.append(draw(complete_event(rank, epoch, fractional, names_host, names_dev)))
         else:
-            events.append(draw(other_entry(rank, epoch, fractional)))
+            e = draw(other_entry(rank, epoch, fractional))
+            if every_entry_has_ts and "ts" not in e:
+                e["ts"] = first_ts  # metadata entries carry a stamp here (an entry without ts turns the column into doubles)
+            events.append(e)
     return {"rank": rank, "events": events}
 
 
@@ -125,6 +128,12 @@ def raw_case(draw) -> Dict[str, Any]:
     nranks = pick(draw, [1, 2, 2, 3, 9, 4, 2, 3, 2, 3, 4, 1])  # 9: more than 8 ranks -> the pooled loader sizes its pool by memory profiling
     epoch = pick(draw, EPOCHS)
     fractional = pick(draw, [True, False])
-    ranks = [draw(raw_rank(r, epoch + (pick(draw, [0, 3, 17]) if r else 0), fractional)) for r in range(nranks)]
+    # whole-numbered stamps beyond 2**53 (e.g. nanoseconds since 1970): exact as 64-bit integers, not as doubles.  Only full
+    # loads of files whose every entry has a stamp are generated there (known finding F27 covers the rest of that region).
+    huge = pick(draw, [False] * 9 + [True])
+    if huge:
+        epoch, fractional = pick(draw, [2**53 + 11, 1_700_000_000_000_000_003]), False
+    ranks = [draw(raw_rank(r, epoch + (pick(draw, [0, 3, 17]) if r else 0), fractional, every_entry_has_ts=huge)) for r in range(nranks)]
     return {"ranks": ranks, "fmt": [pick(draw, ["json", "gz"]) for _ in range(nranks)], "fractional": fractional,
-            "mp": pick(draw, [True, False, False]), "mode": pick(draw, ["load", "parse", "analysis", "dir"])}
+            "mp": pick(draw, [True, False, False]), "mode": pick(draw, ["load", "parse", "analysis", "dir"] if not huge else ["load", "analysis", "dir"]),
+            "huge_epoch": bool(huge)}
